@@ -163,15 +163,20 @@ Theorem DSIG_canonical_bytes_reparse_to_prepared_tree : forall a t b,
 Proof. exact canonical_bytes_reparse_to_prepared_tree. Qed.
 Print Assumptions DSIG_canonical_bytes_reparse_to_prepared_tree.
 
-(* for c14n 1.1 / c14n 1.0 (REC) / the null canonicaliser the premise may be stated on the PRESENTED element: canonicalPrep
-   only sorts attributes and drops redundant declarations and (without-comments) comments.  PARTIAL with respect to the
-   exclusive algorithms: TransformExcC14n ADDS declarations (xmlns:p for a visibly used prefix p); that "xmlns:p" is again a
-   name the reader splits back is not derived from the validity of "p:local" (the premise stays on the prepared tree there). *)
-Theorem DSIG_canonical_bytes_reparse_inclusive_partial : forall a t b,
-  inclusive a = true -> c14n_wf_elem t = true -> canon_model a t = Some b ->
+(* the premise may be stated on the PRESENTED element, for every algorithm: canonicalPrep only sorts attributes and drops
+   redundant declarations and (without-comments) comments; TransformExcC14n drops the declarations and ADDS xmlns / xmlns:p for
+   the visibly used prefixes with the value in scope -- prefix and value of a declaration attribute of the element or an
+   ancestor (or of the default context), so the added attribute is reader-valid because that declaration was *)
+Theorem DSIG_canonical_bytes_reparse_presented : forall a t b,
+  c14n_wf_elem t = true -> canon_model a t = Some b ->
   exists p, canon_prep a t = Some p /\ read_tree b = Ok (normalise p) /\ reparse_model b = Some (normalise p).
-Proof. exact canonical_bytes_reparse_inclusive. Qed.
-Print Assumptions DSIG_canonical_bytes_reparse_inclusive_partial.
+Proof. exact canonical_bytes_reparse_presented. Qed.
+Print Assumptions DSIG_canonical_bytes_reparse_presented.
+
+Theorem DSIG_preparation_keeps_premise : forall a t p,
+  c14n_wf_elem t = true -> canon_prep a t = Some p -> c14n_wf_elem p = true.
+Proof. exact canon_prep_wf. Qed.
+Print Assumptions DSIG_preparation_keeps_premise.
 
 (* the tokens / the document behind it: the real tokenizer model reads the canonical bytes to exactly the tree's tokens *)
 Theorem DSIG_canonical_bytes_tokens : forall p, c14n_wf_elem p = true ->
@@ -197,7 +202,8 @@ Proof. exact dsig_sound_reader. Qed.
 Print Assumptions DSIG_sound_reader.
 
 (* headline form (first signature met; transforms = enveloped-signature + one canonicalisation c0):
-   result = normalise (prep c0 (root minus exactly that Signature element)) *)
+   result = normalise (prep c0 (root minus exactly that Signature element)); the premise on the PRESENTED root suffices
+   (removeElementAtPath and the preparation keep it) *)
 Theorem DSIG_sound_reader_first_signature : forall digest sig_ok parse_cert store now root v,
   dsig_validate_reader digest sig_ok parse_cert store now root = DOk v ->
   exists root' f sb sin sinfo2 r,
@@ -210,7 +216,8 @@ Theorem DSIG_sound_reader_first_signature : forall digest sig_ok parse_cert stor
          remove_at_path root (fs_path f) = Some body /\ canon_prep c0 body = Some p /\
          base64_decode (ref_digest_value r) = Some want /\ digest (ref_digest_alg r) (c14n_write p) = Some want /\
          read_tree (c14n_write p) = Ok v /\
-         (c14n_wf_elem p = true -> v = normalise p)).
+         (c14n_wf_elem p = true -> v = normalise p) /\
+         (c14n_wf root = true -> v = normalise p)).
 Proof. exact dsig_sound_reader_first_signature. Qed.
 Print Assumptions DSIG_sound_reader_first_signature.
 
